@@ -3,13 +3,421 @@ C03 — sig_relaxation gives a valid lower bound; primal and dual forms agree.
 Property theorems about `Model/Relax.lean`.
 -/
 import SageoptModel.Model.Relax
+import SageoptModel.Props.C13
+import SageoptModel.Props.C16
+import SageoptModel.Lemmas.SageSem
+import SageoptModel.Lemmas.RelaxSigCalc
+import SageoptModel.Lemmas.RelaxSigBuild
+import SageoptModel.Lemmas.RelaxSigDual
 
 namespace Sageopt.Props.C03
-open Sageopt Sageopt.Sig Sageopt.Relax
+open Sageopt Sageopt.Sig Sageopt.Relax Sageopt.Sage Sageopt.RelaxSig Sageopt.Sig.Hom
 
 /-- the primal builder produces one coefficient per exponent row of the modulated Lagrangian -/
 theorem sigPrimal_shapes (f : SigQ) (ell : Nat) (ms : Option (List Exp)) (g : Nat) :
     (sigPrimal f ell ms g).alpha.length = (sigPrimal f ell ms g).c.length := by
   simp [sigPrimal, keys]
+
+noncomputable section
+
+/-- real value of a rational-coefficient signomial at a real point -/
+def sigR (ts : List (Exp × Rat)) (x : List ℝ) : ℝ := (ts.map fun t => (t.2 : ℝ) * Real.exp (rdot t.1 x)).sum
+
+/-- the coefficient vector of the primal SAGE constraint under an assignment σ of (γ and other) variables -/
+def primalCoeffs (d : PrimalData) (σ : Nat → Rat) : List (Exp × Rat) := d.alpha.zip (d.c.map (Lin.value σ))
+
+/-- modulator used by the builders -/
+def modOf (f : SigQ) (ell : Nat) (ms : Option (List Exp)) (g : Nat) : SigQ :=
+  let f' := withoutZeros isZeroQ f
+  let L := okOr (add Lin.isZero (embed f') (const f'.n (Lin.scale (-1) (Lin.var g)))) (embed f')
+  modulator f'.n (ms.getD (keys L.terms)) ell
+
+/-! ### glue between the statement-level definitions and `Lemmas/RelaxSig*.lean` -/
+
+private theorem sigR_eq (ts : List (Exp × Rat)) (x : List ℝ) :
+    sigR ts x = eval (rs_chi x) (mapT rs_cast ts) := by
+  unfold sigR eval mapT rs_chi rs_cast
+  rw [List.map_map]
+  rfl
+
+private theorem modOf_eq (f : SigQ) (ell : Nat) (ms : Option (List Exp)) (g : Nat) :
+    modOf f ell ms g = rsT f ell ms g := rfl
+
+private theorem primalCoeffs_eq (f : SigQ) (ell : Nat) (ms : Option (List Exp)) (g : Nat) (σ : Nat → Rat) :
+    primalCoeffs (sigPrimal f ell ms g) σ = mapT (Lin.value σ) (rsS f ell ms g).terms := by
+  unfold primalCoeffs
+  rw [rs_sigPrimal_eq]
+  exact rs_zip_keys (Lin.value σ) _
+
+private theorem sigR_withoutZeros (f : SigQ) (hf : Wf f) (x : List ℝ) :
+    sigR (withoutZeros isZeroQ f).terms x = sigR f.terms x := by
+  rw [sigR_eq, sigR_eq]
+  exact rs_eval_withoutZeros x f hf
+
+/-- the `okOr` fallbacks of the builders are never taken (the numbers of variables always agree — for EVERY
+    input, well-formed or not): the Lagrangian is the model's sum `f' + (−γ)` and the constrained signomial is
+    the model's product `L·t` -/
+theorem okOr_never (f : SigQ) (ell : Nat) (ms : Option (List Exp)) (g : Nat) :
+    let f' := withoutZeros isZeroQ f
+    ∃ L s, add Lin.isZero (embed f') (const f'.n (Lin.scale (-1) (Lin.var g))) = .ok L ∧
+      mul Lin.isZero L (embed (modOf f ell ms g)) = .ok s ∧
+      (sigPrimal f ell ms g).alpha = keys s.terms ∧ (sigPrimal f ell ms g).c = s.terms.map (·.2) ∧
+      (sigDual f ell ms g).alpha = keys s.terms ∧ (sigDual f ell ms g).c = s.terms.map (·.2) :=
+  ⟨rsL f g, rsS f ell ms g, rs_L_add f g, rs_S_mul f ell ms g, rfl, rfl, rfl, rfl⟩
+
+/-- STRUCTURE of the primal problem: under every assignment the constrained coefficient vector is the
+    coefficient vector of `(f − γ)·t^ell`, as functions of x (for every real x) -/
+theorem sigPrimal_function (f : SigQ) (hf : Wf f) (ell : Nat) (ms : Option (List Exp)) (hms : ∀ s, ms = some s → ∀ r ∈ s, r.length = f.n)
+    (g : Nat) (σ : Nat → Rat) (x : List ℝ) (hx : x.length = f.n) :
+    sigR (primalCoeffs (sigPrimal f ell ms g) σ) x
+      = (sigR f.terms x - (σ g : ℝ)) * sigR (modOf f ell ms g).terms x := by
+  have _ := hx
+  have hF := rs_F_wf f hf
+  have hT := rs_T_wf f hf ell ms hms g
+  have hTn := rs_T_n f hf ell ms hms g
+  have hlin : ∀ a, coeff (mapT rs_cast (mapT (Lin.value σ) (rsS f ell ms g).terms)) a =
+      coeff (mapT rs_cast (prodTerms (rsF f).terms (rsT f ell ms g).terms)) a -
+        rs_cast (σ g) * coeff (mapT rs_cast (rsT f ell ms g).terms) a := by
+    intro a
+    rw [rs_coeff_cast, rs_coeff_cast, rs_coeff_cast, rs_S_coeff f hf ell ms hms g σ a]
+    simp [rs_cast]
+  rw [primalCoeffs_eq, modOf_eq, ← sigR_withoutZeros f hf x, sigR_eq, sigR_eq, sigR_eq,
+    rs_eval_lin (rs_chi x) (rs_cast (σ g)) hlin,
+    rs_eval_prodTerms x f.n _ _ (fun t ht => by rw [hF.width t ht, rs_F_n])
+      (fun t ht => by rw [hT.width t ht, hTn])]
+  show _ = (eval (rs_chi x) (mapT rs_cast (rsF f).terms) - rs_cast (σ g)) * _
+  ring
+
+/-- the modulator is positive everywhere (its support is nonempty: it contains the exponents of `f − γ`, or the
+    given rows) -/
+theorem modulator_pos (f : SigQ) (hf : Wf f) (ell : Nat) (ms : Option (List Exp)) (hms : ∀ s, ms = some s → s ≠ [] ∧ ∀ r ∈ s, r.length = f.n)
+    (g : Nat) (x : List ℝ) (hx : x.length = f.n) : 0 < sigR (modOf f ell ms g).terms x := by
+  have _ := hx
+  rw [modOf_eq, sigR_eq]
+  exact rs_T_pos f hf ell ms hms g x
+
+/-- PRIMAL BOUND: whenever the coefficient vector of the constraint defines a signomial that is nonnegative on a
+    set S (which is what a satisfied primal SAGE constraint certifies for S = X, C01.primal_sound (iv)), the
+    objective value γ is a lower bound of f on S — at every hierarchy level and for every modulator support -/
+theorem primal_bound (f : SigQ) (hf : Wf f) (ell : Nat) (ms : Option (List Exp))
+    (hms : ∀ s, ms = some s → s ≠ [] ∧ ∀ r ∈ s, r.length = f.n) (g : Nat) (σ : Nat → Rat) (S : List ℝ → Prop)
+    (hS : ∀ x, S x → x.length = f.n)
+    (hcert : ∀ x, S x → 0 ≤ sigR (primalCoeffs (sigPrimal f ell ms g) σ) x) :
+    ∀ x, S x → (σ g : ℝ) ≤ sigR f.terms x := by
+  intro x hx
+  have h := hcert x hx
+  rw [sigPrimal_function f hf ell ms (fun s hs => (hms s hs).2) g σ x (hS x hx)] at h
+  have hpos := modulator_pos f hf ell ms hms g x (hS x hx)
+  have h' : 0 ≤ sigR f.terms x - (σ g : ℝ) := nonneg_of_mul_nonneg_left h hpos
+  linarith
+
+/-- COUNTEREXAMPLE to `primal_dual_coeffs` as originally stated (without `hms`): a custom modulator support
+    whose rows do not have width `f.n` (`f = e^x`, support rows `[]` and `[0,5]`, `ell = 1`).  `zipWith`
+    truncation in `addExp` and in `rowMatch` then places the coefficients of `t` and of `f·t` at the wrong
+    rows: row 1 of the primal constraint has coefficient `−γ` while `obj_1 − γ·a_1 = 0`. -/
+theorem primal_dual_coeffs_needs_hms :
+    Wf (⟨1, [([1], 1)]⟩ : SigQ) ∧
+    (sigPrimal ⟨1, [([1], 1)]⟩ 1 (some [[], [0, 5]]) 0).alpha = [[], [0], [1]] ∧
+    (sigPrimal ⟨1, [([1], 1)]⟩ 1 (some [[], [0, 5]]) 0).c =
+      [⟨1, [(0, -1)], false⟩, ⟨0, [(0, -1)], false⟩, ⟨1, [], false⟩] ∧
+    (sigDual ⟨1, [([1], 1)]⟩ 1 (some [[], [0, 5]]) 0).a = [1, 0, 0] ∧
+    (sigDual ⟨1, [([1], 1)]⟩ 1 (some [[], [0, 5]]) 0).obj = [1, 0, 0] ∧
+    ¬ (∀ σ : Nat → Rat, ∀ j, j < (sigPrimal ⟨1, [([1], 1)]⟩ 1 (some [[], [0, 5]]) 0).alpha.length →
+      Lin.value σ ((sigPrimal ⟨1, [([1], 1)]⟩ 1 (some [[], [0, 5]]) 0).c.getD j 0)
+        = (sigDual ⟨1, [([1], 1)]⟩ 1 (some [[], [0, 5]]) 0).obj.getD j 0
+          - σ 0 * (sigDual ⟨1, [([1], 1)]⟩ 1 (some [[], [0, 5]]) 0).a.getD j 0) := by
+  have hα : (sigPrimal ⟨1, [([1], 1)]⟩ 1 (some [[], [0, 5]]) 0).alpha = [[], [0], [1]] := by
+    with_unfolding_all decide
+  have hc : (sigPrimal ⟨1, [([1], 1)]⟩ 1 (some [[], [0, 5]]) 0).c =
+      [⟨1, [(0, -1)], false⟩, ⟨0, [(0, -1)], false⟩, ⟨1, [], false⟩] := by with_unfolding_all decide
+  have ha : (sigDual ⟨1, [([1], 1)]⟩ 1 (some [[], [0, 5]]) 0).a = [1, 0, 0] := by with_unfolding_all decide
+  have ho : (sigDual ⟨1, [([1], 1)]⟩ 1 (some [[], [0, 5]]) 0).obj = [1, 0, 0] := by with_unfolding_all decide
+  refine ⟨⟨by decide, ?_, by decide⟩, hα, hc, ha, ho, ?_⟩
+  · intro t ht q hq
+    simp only [List.mem_singleton] at ht
+    subst ht
+    simp only [List.mem_singleton] at hq
+    subst hq
+    exact (round7_fix_iff 1).2 ⟨10000000, by norm_num [decimals]⟩
+  · intro h
+    have h1 := h (fun _ => 1) 1 (by rw [hα]; decide)
+    rw [hc, ha, ho] at h1
+    revert h1
+    with_unfolding_all decide
+
+/-- the primal and dual builders use the same exponent rows, and the coefficient vector of the primal constraint
+    is `obj − γ·a` row by row.
+    (`_partial`: the hypothesis `hms` — custom modulator rows have width `f.n` — is ADDED; without it the
+    statement is false, see `primal_dual_coeffs_needs_hms`.) -/
+theorem primal_dual_coeffs_partial (f : SigQ) (hf : Wf f) (ell : Nat) (ms : Option (List Exp))
+    (hms : ∀ s, ms = some s → ∀ r ∈ s, r.length = f.n) (g : Nat) (σ : Nat → Rat) :
+    (sigDual f ell ms g).alpha = (sigPrimal f ell ms g).alpha ∧
+    ∀ j, j < (sigPrimal f ell ms g).alpha.length →
+      Lin.value σ ((sigPrimal f ell ms g).c.getD j 0)
+        = (sigDual f ell ms g).obj.getD j 0 - σ g * (sigDual f ell ms g).a.getD j 0 := by
+  refine ⟨rfl, ?_⟩
+  intro j hj
+  have hj' : j < (rsS f ell ms g).terms.length := by
+    rw [rs_sigPrimal_eq] at hj
+    simpa [keys] using hj
+  exact rs_primal_dual f hf ell ms hms g σ j hj'
+
+/-- the default call (`modulator_support=None`): no side condition at all -/
+theorem primal_dual_coeffs_none (f : SigQ) (hf : Wf f) (ell : Nat) (g : Nat) (σ : Nat → Rat) :
+    (sigDual f ell none g).alpha = (sigPrimal f ell none g).alpha ∧
+    ∀ j, j < (sigPrimal f ell none g).alpha.length →
+      Lin.value σ ((sigPrimal f ell none g).c.getD j 0)
+        = (sigDual f ell none g).obj.getD j 0 - σ g * (sigDual f ell none g).a.getD j 0 :=
+  primal_dual_coeffs_partial f hf ell none (fun _ h => by cases h) g σ
+
+/-- DUAL ATTAINS f: for every real x the vector `v_j = e^{α_j·x} / t(x)` satisfies the normalisation `a·v = 1` and
+    has objective value `obj·v = f(x)`; being a nonnegative multiple of the moment vector of x it satisfies the
+    dual SAGE constraint whenever x ∈ X (C02.dual_admits_moments).  Hence the dual optimal value is at most f(x) for
+    every x ∈ X, and the dual problem is feasible whenever X is nonempty. -/
+theorem dual_attains (f : SigQ) (hf : Wf f) (ell : Nat) (ms : Option (List Exp))
+    (hms : ∀ s, ms = some s → s ≠ [] ∧ ∀ r ∈ s, r.length = f.n) (g : Nat) (x : List ℝ) (hx : x.length = f.n) :
+    let d := sigDual f ell ms g
+    let tx := sigR (modOf f ell ms g).terms x
+    let v := d.alpha.map fun a => Real.exp (rdot a x) / tx
+    (List.zipWith (fun (a : Rat) (vj : ℝ) => (a : ℝ) * vj) d.a v).sum = 1 ∧
+    (List.zipWith (fun (o : Rat) (vj : ℝ) => (o : ℝ) * vj) d.obj v).sum = sigR (withoutZeros isZeroQ f).terms x ∧
+    ∀ vj ∈ v, 0 ≤ vj := by
+  intro d tx v
+  have hms' : ∀ s, ms = some s → ∀ r ∈ s, r.length = f.n := fun s hs => (hms s hs).2
+  have htx : 0 < tx := modulator_pos f hf ell ms hms g x hx
+  have htxe : tx = eval (rs_chi x) (mapT rs_cast (rsT f ell ms g).terms) := by
+    show sigR (modOf f ell ms g).terms x = _
+    rw [modOf_eq, sigR_eq]
+  obtain ⟨_, hnd⟩ := rs_S_rows f hf ell ms hms' g
+  have hF := rs_F_wf f hf
+  have hT := rs_T_wf f hf ell ms hms' g
+  have hTn := rs_T_n f hf ell ms hms' g
+  -- a generic tabulated sum
+  have key : ∀ (ts : List (Exp × Rat)), (∀ u ∈ ts, u.2 ≠ 0 → u.1 ∈ keys (rsS f ell ms g).terms) →
+      (List.zipWith (fun (a : Rat) (vj : ℝ) => (a : ℝ) * vj)
+        ((keys (rsS f ell ms g).terms).map (coeff ts))
+        ((keys (rsS f ell ms g).terms).map fun a => Real.exp (rdot a x) / tx)).sum =
+      eval (rs_chi x) (mapT rs_cast ts) / tx := by
+    intro ts hsupp
+    have hs : ∀ u ∈ mapT rs_cast ts, u.2 ≠ 0 → u.1 ∈ keys (rsS f ell ms g).terms := by
+      intro u hu hne
+      obtain ⟨t, ht, rfl⟩ := (mem_mapT rs_cast).1 hu
+      apply hsupp t ht
+      intro h0
+      apply hne
+      show rs_cast t.2 = 0
+      rw [h0]; simp [rs_cast]
+    rw [div_eq_mul_inv, ← SymCorr.sc_sum_coeff_eval (mapT rs_cast ts) _ hnd hs (rs_chi x),
+      ← List.sum_map_mul_right, List.zipWith_map_left, List.zipWith_map_right, List.zipWith_self]
+    congr 1
+    apply List.map_congr_left
+    intro a _
+    rw [rs_coeff_cast]
+    simp only [rs_cast, rs_chi]
+    ring
+  refine ⟨?_, ?_, ?_⟩
+  · show (List.zipWith _ (sigDual f ell ms g).a ((keys (rsS f ell ms g).terms).map _)).sum = 1
+    rw [rs_a_eq f hf ell ms hms' g, key _ (rs_supp_T f hf ell ms hms' g), ← htxe]
+    exact div_self htx.ne'
+  · show (List.zipWith _ (sigDual f ell ms g).obj ((keys (rsS f ell ms g).terms).map _)).sum = _
+    obtain ⟨hw, _, hc⟩ := rs_fmod_spec f hf ell ms hms' g
+    have hobj : (sigDual f ell ms g).obj =
+        (keys (rsS f ell ms g).terms).map (coeff (mulQ (rsF f) (rsT f ell ms g)).terms) := by
+      rw [rs_obj_eq f hf ell ms hms' g]
+      apply List.map_congr_left
+      intro a _
+      exact (hc a).symm
+    have hev : eval (rs_chi x) (mapT rs_cast (mulQ (rsF f) (rsT f ell ms g)).terms) =
+        eval (rs_chi x) (mapT rs_cast (rsF f).terms) * tx := by
+      rw [htxe, ← rs_eval_prodTerms x f.n _ _ (fun t ht => by rw [hF.width t ht, rs_F_n])
+        (fun t ht => by rw [hT.width t ht, hTn])]
+      apply eval_congr_coeff
+      intro a
+      rw [rs_coeff_cast, rs_coeff_cast, hc a]
+    rw [hobj, key _ (rs_supp_fmod f hf ell ms hms' g), hev, sigR_eq]
+    exact mul_div_cancel_right₀ _ htx.ne'
+  · intro vj hvj
+    obtain ⟨a, _, rfl⟩ := List.mem_map.1 hvj
+    exact div_nonneg (Real.exp_pos _).le htx.le
+
+/-- WEAK DUALITY of the two built problems, given the pairing inequality between the primal and dual SAGE
+    models (`0 ≤ c·v` for c in the primal model and v in the dual model — proved for the compiled ordinary cones
+    in `ord_age_pairing`): every primal feasible γ is at most every dual feasible objective value.
+    (`_partial`: the hypothesis `hms` is ADDED, as in `primal_dual_coeffs_partial`; without it the statement is
+    false for the same instance, see `weak_duality_needs_hms`.) -/
+theorem weak_duality_partial (f : SigQ) (hf : Wf f) (ell : Nat) (ms : Option (List Exp))
+    (hms : ∀ s, ms = some s → ∀ r ∈ s, r.length = f.n) (g : Nat) (σ : Nat → Rat) (v : List ℝ)
+    (hv : v.length = (sigDual f ell ms g).alpha.length)
+    (hpair : 0 ≤ (List.zipWith (fun (c : Lin) (vj : ℝ) => (Lin.value σ c : ℝ) * vj) (sigPrimal f ell ms g).c v).sum)
+    (hnorm : (List.zipWith (fun (a : Rat) (vj : ℝ) => (a : ℝ) * vj) (sigDual f ell ms g).a v).sum = 1) :
+    (σ g : ℝ) ≤ (List.zipWith (fun (o : Rat) (vj : ℝ) => (o : ℝ) * vj) (sigDual f ell ms g).obj v).sum := by
+  have hα : (sigDual f ell ms g).alpha.length = (rsS f ell ms g).terms.length := by
+    rw [rs_sigDual_eq]; simp [keys]
+  have hlc : (sigPrimal f ell ms g).c.length = v.length := by
+    rw [hv, hα, rs_sigPrimal_eq]; simp
+  have hla : (sigDual f ell ms g).a.length = v.length := by
+    rw [rs_a_eq f hf ell ms hms g, hv, hα]; simp [keys]
+  have hlo : (sigDual f ell ms g).obj.length = v.length := by
+    rw [rs_obj_eq f hf ell ms hms g, hv, hα]; simp [keys]
+  have halg := rs_weak_alg σ (σ g) v _ _ _ hlc hla hlo (fun j hj =>
+    rs_primal_dual f hf ell ms hms g σ j (by rw [← hα, ← hv]; exact hj))
+  rw [halg, hnorm] at hpair
+  linarith
+
+/-- the default call (`modulator_support=None`): no side condition at all -/
+theorem weak_duality_none (f : SigQ) (hf : Wf f) (ell : Nat) (g : Nat) (σ : Nat → Rat) (v : List ℝ)
+    (hv : v.length = (sigDual f ell none g).alpha.length)
+    (hpair : 0 ≤ (List.zipWith (fun (c : Lin) (vj : ℝ) => (Lin.value σ c : ℝ) * vj) (sigPrimal f ell none g).c v).sum)
+    (hnorm : (List.zipWith (fun (a : Rat) (vj : ℝ) => (a : ℝ) * vj) (sigDual f ell none g).a v).sum = 1) :
+    (σ g : ℝ) ≤ (List.zipWith (fun (o : Rat) (vj : ℝ) => (o : ℝ) * vj) (sigDual f ell none g).obj v).sum :=
+  weak_duality_partial f hf ell none (fun _ h => by cases h) g σ v hv hpair hnorm
+
+/-- COUNTEREXAMPLE to `weak_duality` as originally stated (without `hms`): the instance of
+    `primal_dual_coeffs_needs_hms` with `γ = 2`, `v = (1, 0, 1)`: the pairing is `(1−γ)·1 − γ·0 + 1·1 = 0 ≥ 0`,
+    the normalisation is `1·1 = 1`, but the dual objective is `1·1 = 1 < 2 = γ`. -/
+theorem weak_duality_needs_hms :
+    ∃ (σ : Nat → Rat) (v : List ℝ),
+      v.length = (sigDual ⟨1, [([1], 1)]⟩ 1 (some [[], [0, 5]]) 0).alpha.length ∧
+      0 ≤ (List.zipWith (fun (c : Lin) (vj : ℝ) => (Lin.value σ c : ℝ) * vj)
+        (sigPrimal ⟨1, [([1], 1)]⟩ 1 (some [[], [0, 5]]) 0).c v).sum ∧
+      (List.zipWith (fun (a : Rat) (vj : ℝ) => (a : ℝ) * vj)
+        (sigDual ⟨1, [([1], 1)]⟩ 1 (some [[], [0, 5]]) 0).a v).sum = 1 ∧
+      ¬ ((σ 0 : ℝ) ≤ (List.zipWith (fun (o : Rat) (vj : ℝ) => (o : ℝ) * vj)
+        (sigDual ⟨1, [([1], 1)]⟩ 1 (some [[], [0, 5]]) 0).obj v).sum) := by
+  obtain ⟨_, hα, hc, ha, ho, _⟩ := primal_dual_coeffs_needs_hms
+  have hα' : (sigDual ⟨1, [([1], 1)]⟩ 1 (some [[], [0, 5]]) 0).alpha = [[], [0], [1]] := hα
+  have v1 : Lin.value (fun _ => 2) ⟨1, [(0, -1)], false⟩ = -1 := by with_unfolding_all decide
+  have v2 : Lin.value (fun _ => 2) ⟨0, [(0, -1)], false⟩ = -2 := by with_unfolding_all decide
+  have v3 : Lin.value (fun _ => 2) ⟨1, [], false⟩ = 1 := by with_unfolding_all decide
+  refine ⟨fun _ => 2, [1, 0, 1], ?_, ?_, ?_, ?_⟩
+  · rw [hα']; rfl
+  · rw [hc]
+    simp only [List.zipWith_cons_cons, List.zipWith_nil_right, List.sum_cons, List.sum_nil, v1, v2, v3]
+    norm_num
+  · rw [ha]
+    simp
+  · rw [ho]
+    simp
+
+/-! ### non-vacuity: the hypotheses hold on concrete data, and the builders produce what the code produces
+
+Instance: `f = e^{2x} − 2e^{x} + 3` (one variable; `min f = 2` at `x = 0`).  Concrete values are checked by
+`decide` on the executable model (core `Rat` operations are irreducible, hence `with_unfolding_all`). -/
+section NonVacuity
+
+private def fEx : SigQ := ⟨1, [([0], 3), ([1], -2), ([2], 1)]⟩
+
+private theorem grid_of {ts : List (Exp × Rat)} (h : ∀ t ∈ ts, ∀ q ∈ t.1, round7 q = q) :
+    ∀ t ∈ ts, OnGrid t.1 := h
+
+private theorem fEx_wf : Wf fEx := ⟨by decide, grid_of (by with_unfolding_all decide), by decide⟩
+
+private theorem none_hms (n : Nat) : ∀ s, (none : Option (List Exp)) = some s → s ≠ [] ∧ ∀ r ∈ s, r.length = n :=
+  fun _ h => by cases h
+
+-- level 0: the constraint is on `f − γ` itself (γ = scalar variable 0)
+private theorem primalEx0 :
+    (sigPrimal fEx 0 none 0).alpha = [[0], [1], [2]] ∧
+    (sigPrimal fEx 0 none 0).c = [⟨3, [(0, -1)], false⟩, ⟨-2, [], false⟩, ⟨1, [], false⟩] := by
+  with_unfolding_all decide
+
+-- level 1: the constraint is on `(f − γ)·(1 + e^x + e^{2x})`
+private theorem primalEx1 :
+    (sigPrimal fEx 1 none 0).alpha = [[0], [1], [2], [3], [4]] ∧
+    (sigPrimal fEx 1 none 0).c = [⟨3, [(0, -1)], false⟩, ⟨1, [(0, -1)], false⟩, ⟨2, [(0, -1)], false⟩,
+      ⟨-1, [], false⟩, ⟨1, [], false⟩] := by
+  with_unfolding_all decide
+
+private theorem dualEx0 :
+    (sigDual fEx 0 none 0).alpha = [[0], [1], [2]] ∧
+    (sigDual fEx 0 none 0).c = [⟨3, [(0, -1)], false⟩, ⟨-2, [], false⟩, ⟨1, [], false⟩] ∧
+    (sigDual fEx 0 none 0).a = [1, 0, 0] ∧
+    (sigDual fEx 0 none 0).obj = [3, -2, 1] := by
+  with_unfolding_all decide
+
+private theorem dualEx1 :
+    (sigDual fEx 1 none 0).alpha = [[0], [1], [2], [3], [4]] ∧
+    (sigDual fEx 1 none 0).a = [1, 1, 1, 0, 0] ∧
+    (sigDual fEx 1 none 0).obj = [3, 1, 2, -1, 1] := by
+  with_unfolding_all decide
+
+example : (modOf fEx 0 none 0).terms = [([0], 1)] := by with_unfolding_all decide
+example : (modOf fEx 1 none 0).terms = [([0], 1), ([1], 1), ([2], 1)] := by with_unfolding_all decide
+-- a custom modulator support; level 2: t² = (1 + e^{x/2})²
+example : (modOf fEx 2 (some [[0], [1/2]]) 0).terms = [([0], 1), ([1/2], 2), ([1], 1)] := by
+  with_unfolding_all decide
+-- an explicit zero term is dropped first
+example : (sigPrimal ⟨1, [([0], 3), ([5], 0), ([1], -2), ([2], 1)]⟩ 0 none 0).alpha = [[0], [1], [2]] := by
+  with_unfolding_all decide
+
+-- the theorems apply to the instance (at both levels, for every assignment and every real point)
+example (σ : Nat → Rat) (y : ℝ) :
+    sigR (primalCoeffs (sigPrimal fEx 1 none 0) σ) [y]
+      = (sigR fEx.terms [y] - (σ 0 : ℝ)) * sigR (modOf fEx 1 none 0).terms [y] :=
+  sigPrimal_function fEx fEx_wf 1 none (fun _ h => by cases h) 0 σ [y] rfl
+
+example (y : ℝ) : 0 < sigR (modOf fEx 1 none 0).terms [y] :=
+  modulator_pos fEx fEx_wf 1 none (none_hms _) 0 [y] rfl
+
+example (σ : Nat → Rat) (j : Nat) (hj : j < 5) :
+    Lin.value σ ((sigPrimal fEx 1 none 0).c.getD j 0)
+      = (sigDual fEx 1 none 0).obj.getD j 0 - σ 0 * (sigDual fEx 1 none 0).a.getD j 0 :=
+  (primal_dual_coeffs_partial fEx fEx_wf 1 none (fun _ h => by cases h) 0 σ).2 j (by rw [primalEx1.1]; exact hj)
+
+/-- the certificate hypothesis of `primal_bound` is satisfiable with the OPTIMAL value: at `γ = 2` the level-0
+    coefficient vector is `1 − 2e^x + e^{2x} = (e^x − 1)² ≥ 0` -/
+private theorem certEx (x : List ℝ) (hx : x.length = 1) :
+    0 ≤ sigR (primalCoeffs (sigPrimal fEx 0 none 0) (fun _ => 2)) x := by
+  have v1 : Lin.value (fun _ => 2) ⟨3, [(0, -1)], false⟩ = 1 := by with_unfolding_all decide
+  have v2 : Lin.value (fun _ => 2) ⟨-2, [], false⟩ = -2 := by with_unfolding_all decide
+  have v3 : Lin.value (fun _ => 2) ⟨1, [], false⟩ = 1 := by with_unfolding_all decide
+  match x, hx with
+  | [y], _ =>
+    have he : Real.exp (2 * y) = Real.exp y * Real.exp y := by
+      rw [← Real.exp_add]; ring_nf
+    unfold primalCoeffs
+    rw [primalEx0.1, primalEx0.2]
+    simp only [List.map_cons, List.map_nil, List.zip_cons_cons, List.zip_nil_right, v1, v2, v3, sigR, rdot,
+      List.zipWith_cons_cons, List.zipWith_nil_right, List.sum_cons, List.sum_nil]
+    push_cast
+    simp only [zero_mul, one_mul, add_zero, Real.exp_zero, he]
+    nlinarith [sq_nonneg (Real.exp y - 1)]
+
+/-- hence `2 ≤ f(x)` for every real `x` (and `f(0) = 2`: the bound is attained) -/
+example : ∀ x : List ℝ, x.length = 1 → ((2 : Rat) : ℝ) ≤ sigR fEx.terms x :=
+  primal_bound fEx fEx_wf 0 none (none_hms _) 0 (fun _ => 2) (fun x => x.length = 1) (fun _ h => h) certEx
+
+example : sigR fEx.terms [0] = 2 := by
+  simp only [sigR, fEx, rdot, List.map_cons, List.map_nil, List.zipWith_cons_cons, List.zipWith_nil_right,
+    List.sum_cons, List.sum_nil]
+  norm_num
+
+-- the dual attains `f(x)` at the scaled moment vector of every real point
+example (y : ℝ) :
+    let d := sigDual fEx 1 none 0
+    let tx := sigR (modOf fEx 1 none 0).terms [y]
+    let v := d.alpha.map fun a => Real.exp (rdot a [y]) / tx
+    (List.zipWith (fun (a : Rat) (vj : ℝ) => (a : ℝ) * vj) d.a v).sum = 1 ∧
+    (List.zipWith (fun (o : Rat) (vj : ℝ) => (o : ℝ) * vj) d.obj v).sum = sigR (withoutZeros isZeroQ fEx).terms [y] ∧
+    ∀ vj ∈ v, 0 ≤ vj :=
+  dual_attains fEx fEx_wf 1 none (none_hms _) 0 [y] rfl
+
+/-- the hypotheses of weak duality are satisfiable, with equality in the conclusion: `γ = 2` and the moment vector
+    `v = (1,1,1)` of `x = 0` at level 0 — pairing `(3−2) − 2 + 1 = 0`, normalisation `1`, dual objective `3 − 2 + 1 = 2` -/
+example : ((2 : Rat) : ℝ) ≤ (List.zipWith (fun (o : Rat) (vj : ℝ) => (o : ℝ) * vj) (sigDual fEx 0 none 0).obj [1, 1, 1]).sum := by
+  have v1 : Lin.value (fun _ => 2) ⟨3, [(0, -1)], false⟩ = 1 := by with_unfolding_all decide
+  have v2 : Lin.value (fun _ => 2) ⟨-2, [], false⟩ = -2 := by with_unfolding_all decide
+  have v3 : Lin.value (fun _ => 2) ⟨1, [], false⟩ = 1 := by with_unfolding_all decide
+  refine weak_duality_partial fEx fEx_wf 0 none (fun _ h => by cases h) 0 (fun _ => 2) [1, 1, 1] ?_ ?_ ?_
+  · rw [dualEx0.1]; rfl
+  · rw [primalEx0.2]
+    simp only [List.zipWith_cons_cons, List.zipWith_nil_right, List.sum_cons, List.sum_nil, v1, v2, v3]
+    norm_num
+  · rw [dualEx0.2.2.1]
+    simp
+
+end NonVacuity
+
+end
 
 end Sageopt.Props.C03
